@@ -290,108 +290,8 @@ func runC06(c *Ctx) {
 	r.Rule("J5", "an unrepresentable scalar is an error", 1)
 	r.Rule("J7", "aliases resolve to the most recent anchor of that name", 1)
 	ruleA4(c, "J7")
-	for _, fn := range c.moduleFuncs() {
-		eachInstr(fn, func(ins ssa.Instruction) {
-			call, ok := ins.(*ssa.Call)
-			if !ok {
-				return
-			}
-			name := calleeName(&call.Call)
-			if !isJSONPkg(name) {
-				return
-			}
-			switch {
-			case strings.HasSuffix(name, ".NewEncoder"):
-				// J1
-				isEsc := func(i ssa.Instruction) bool {
-					cc := callCommon(i)
-					if cc == nil || len(cc.Args) != 2 || cc.Args[0] != ssa.Value(call) {
-						return false
-					}
-					if cal := cc.StaticCallee(); cal == nil || cal.Name() != "SetEscapeHTML" {
-						return false
-					}
-					cst, ok := cc.Args[1].(*ssa.Const)
-					return ok && cst.Value != nil && cst.Value.Kind() == constant.Bool && !constant.BoolVal(cst.Value)
-				}
-				bad := ""
-				n := 0
-				for _, ref := range *call.Referrers() {
-					cc := callCommon(ref)
-					if cc == nil || cc.StaticCallee() == nil || cc.StaticCallee().Name() != "Encode" || cc.Args[0] != ssa.Value(call) {
-						continue
-					}
-					n++
-					if pathAvoiding(fn, call.Block(), instrIndex(call)+1, ref.Block(), instrIndex(ref), isEsc) {
-						bad = c.P.pos(ref.Pos())
-					}
-				}
-				key := funcKey(fn) + "/json.NewEncoder"
-				if bad == "" {
-					r.Discharge("J1", key, c.P.pos(call.Pos()), fmt.Sprintf("SetEscapeHTML(false) precedes all %d Encode call(s)", n))
-				} else {
-					r.Finding("J1", key, bad, "a json encoder reaches Encode without SetEscapeHTML(false): <, > and & come out as \\u003c … (different text than the YAML value)")
-				}
-			case strings.HasSuffix(name, ".Unmarshal") || strings.HasSuffix(name, ").Decode"):
-				// target type
-				tgt := call.Call.Args[len(call.Call.Args)-1]
-				tt := tgt.Type()
-				if mi, ok := tgt.(*ssa.MakeInterface); ok {
-					tt = mi.X.Type()
-				}
-				elem := tt
-				if p, ok := tt.Underlying().(*types.Pointer); ok {
-					elem = p.Elem()
-				}
-				key := fmt.Sprintf("%s/%s(%s)", funcKey(fn), shortCallee(name), types.TypeString(elem, func(*types.Package) string { return "" }))
-				if _, isMap := elem.Underlying().(*types.Map); isMap {
-					r.Finding("J4", key, c.P.pos(call.Pos()), "JSON is decoded into a Go map: key order of the document is lost")
-					return
-				}
-				r.Discharge("J4", key, c.P.pos(call.Pos()), "decode target is not a map")
-				if it, isIface := elem.Underlying().(*types.Interface); isIface && it.NumMethods() == 0 {
-					// needs UseNumber on the decoder on all paths
-					okNum := false
-					if strings.HasSuffix(name, ").Decode") {
-						dec := call.Call.Args[0]
-						isUse := func(i ssa.Instruction) bool {
-							cc := callCommon(i)
-							return cc != nil && cc.StaticCallee() != nil && cc.StaticCallee().Name() == "UseNumber" && len(cc.Args) > 0 && cc.Args[0] == dec
-						}
-						if di, ok := dec.(ssa.Instruction); ok && !pathAvoiding(fn, di.Block(), instrIndex(di)+1, call.Block(), instrIndex(call), isUse) {
-							okNum = true
-						}
-					}
-					if okNum {
-						r.Discharge("J2", key, c.P.pos(call.Pos()), "scalar decoded into interface{} with UseNumber: integers keep their text")
-					} else {
-						r.Finding("J2", key, c.P.pos(call.Pos()), "a JSON value is decoded into interface{} without UseNumber: numbers become float64 and integers above 2^53 change value")
-					}
-				}
-			}
-		})
-	}
-	// J6: no unsigned -> signed conversion of a parsed integer
-	for _, fn := range c.moduleFuncs() {
-		eachInstr(fn, func(ins ssa.Instruction) {
-			cv, ok := ins.(*ssa.Convert)
-			if !ok {
-				return
-			}
-			from, ok1 := cv.X.Type().Underlying().(*types.Basic)
-			to, ok2 := cv.Type().Underlying().(*types.Basic)
-			if !ok1 || !ok2 || from.Info()&types.IsUnsigned == 0 || to.Info()&types.IsInteger == 0 || to.Info()&types.IsUnsigned != 0 {
-				return
-			}
-			// derived from strconv.ParseUint?
-			src := cv.X
-			if ex, ok := src.(*ssa.Extract); ok {
-				if call, ok := ex.Tuple.(*ssa.Call); ok && strings.HasPrefix(calleeName(&call.Call), "strconv.ParseUint") {
-					r.Finding("J2", funcKey(fn)+"/int(ParseUint)", c.P.pos(cv.Pos()), "an integer parsed as unsigned is converted to a signed type: values >= 2^63 wrap to negative numbers instead of being rejected")
-				}
-			}
-		})
-	}
+	ruleJ124(c)
+	ruleJ6(c)
 	if fn := c.libFunc("parseInt64"); fn != nil {
 		r.Discharge("J2", "parseInt64/no-sign-wrap", c.P.pos(fn.Pos()), "integers are parsed with strconv.ParseInt; no unsigned->signed conversion of parsed values in the module")
 	}
@@ -926,5 +826,115 @@ func ruleFormats(c *Ctx, k2, k3 string) {
 		default:
 			r.Discharge(k3, key, c.P.pos(lr.Pos), "uses "+fname+" with the needed factory present")
 		}
+	}
+}
+
+func ruleJ124(c *Ctx) {
+	r := c.R
+	for _, fn := range c.moduleFuncs() {
+		eachInstr(fn, func(ins ssa.Instruction) {
+			call, ok := ins.(*ssa.Call)
+			if !ok {
+				return
+			}
+			name := calleeName(&call.Call)
+			if !isJSONPkg(name) {
+				return
+			}
+			switch {
+			case strings.HasSuffix(name, ".NewEncoder"):
+				// J1
+				isEsc := func(i ssa.Instruction) bool {
+					cc := callCommon(i)
+					if cc == nil || len(cc.Args) != 2 || cc.Args[0] != ssa.Value(call) {
+						return false
+					}
+					if cal := cc.StaticCallee(); cal == nil || cal.Name() != "SetEscapeHTML" {
+						return false
+					}
+					cst, ok := cc.Args[1].(*ssa.Const)
+					return ok && cst.Value != nil && cst.Value.Kind() == constant.Bool && !constant.BoolVal(cst.Value)
+				}
+				bad := ""
+				n := 0
+				for _, ref := range *call.Referrers() {
+					cc := callCommon(ref)
+					if cc == nil || cc.StaticCallee() == nil || cc.StaticCallee().Name() != "Encode" || cc.Args[0] != ssa.Value(call) {
+						continue
+					}
+					n++
+					if pathAvoiding(fn, call.Block(), instrIndex(call)+1, ref.Block(), instrIndex(ref), isEsc) {
+						bad = c.P.pos(ref.Pos())
+					}
+				}
+				key := funcKey(fn) + "/json.NewEncoder"
+				if bad == "" {
+					r.Discharge("J1", key, c.P.pos(call.Pos()), fmt.Sprintf("SetEscapeHTML(false) precedes all %d Encode call(s)", n))
+				} else {
+					r.Finding("J1", key, bad, "a json encoder reaches Encode without SetEscapeHTML(false): <, > and & come out as \\u003c … (different text than the YAML value)")
+				}
+			case strings.HasSuffix(name, ".Unmarshal") || strings.HasSuffix(name, ").Decode"):
+				// target type
+				tgt := call.Call.Args[len(call.Call.Args)-1]
+				tt := tgt.Type()
+				if mi, ok := tgt.(*ssa.MakeInterface); ok {
+					tt = mi.X.Type()
+				}
+				elem := tt
+				if p, ok := tt.Underlying().(*types.Pointer); ok {
+					elem = p.Elem()
+				}
+				key := fmt.Sprintf("%s/%s(%s)", funcKey(fn), shortCallee(name), types.TypeString(elem, func(*types.Package) string { return "" }))
+				if _, isMap := elem.Underlying().(*types.Map); isMap {
+					r.Finding("J4", key, c.P.pos(call.Pos()), "JSON is decoded into a Go map: key order of the document is lost")
+					return
+				}
+				r.Discharge("J4", key, c.P.pos(call.Pos()), "decode target is not a map")
+				if it, isIface := elem.Underlying().(*types.Interface); isIface && it.NumMethods() == 0 {
+					// needs UseNumber on the decoder on all paths
+					okNum := false
+					if strings.HasSuffix(name, ").Decode") {
+						dec := call.Call.Args[0]
+						isUse := func(i ssa.Instruction) bool {
+							cc := callCommon(i)
+							return cc != nil && cc.StaticCallee() != nil && cc.StaticCallee().Name() == "UseNumber" && len(cc.Args) > 0 && cc.Args[0] == dec
+						}
+						if di, ok := dec.(ssa.Instruction); ok && !pathAvoiding(fn, di.Block(), instrIndex(di)+1, call.Block(), instrIndex(call), isUse) {
+							okNum = true
+						}
+					}
+					if okNum {
+						r.Discharge("J2", key, c.P.pos(call.Pos()), "scalar decoded into interface{} with UseNumber: integers keep their text")
+					} else {
+						r.Finding("J2", key, c.P.pos(call.Pos()), "a JSON value is decoded into interface{} without UseNumber: numbers become float64 and integers above 2^53 change value")
+					}
+				}
+			}
+		})
+	}
+}
+
+func ruleJ6(c *Ctx) {
+	r := c.R
+	// J6: no unsigned -> signed conversion of a parsed integer
+	for _, fn := range c.moduleFuncs() {
+		eachInstr(fn, func(ins ssa.Instruction) {
+			cv, ok := ins.(*ssa.Convert)
+			if !ok {
+				return
+			}
+			from, ok1 := cv.X.Type().Underlying().(*types.Basic)
+			to, ok2 := cv.Type().Underlying().(*types.Basic)
+			if !ok1 || !ok2 || from.Info()&types.IsUnsigned == 0 || to.Info()&types.IsInteger == 0 || to.Info()&types.IsUnsigned != 0 {
+				return
+			}
+			// derived from strconv.ParseUint?
+			src := cv.X
+			if ex, ok := src.(*ssa.Extract); ok {
+				if call, ok := ex.Tuple.(*ssa.Call); ok && strings.HasPrefix(calleeName(&call.Call), "strconv.ParseUint") {
+					r.Finding("J2", funcKey(fn)+"/int(ParseUint)", c.P.pos(cv.Pos()), "an integer parsed as unsigned is converted to a signed type: values >= 2^63 wrap to negative numbers instead of being rejected")
+				}
+			}
+		})
 	}
 }
